@@ -1114,6 +1114,7 @@ pub struct Ledger {
 pub struct Prep {
     pub cpd: CircuitProverData<BabyBearConfig>,
     pub base_prep: Vec<Vec<F>>,
+    pub alu_air: Option<p3_circuit_prover::air::AluAir<F, 1>>,
 }
 
 pub fn prepare(c: &Circuit<F>, packing: &TablePacking) -> Result<Prep, String> {
@@ -1127,10 +1128,14 @@ pub fn prepare(c: &Circuit<F>, packing: &TablePacking) -> Result<Prep, String> {
         Err(_) => return Err("PANIC in get_airs_and_degrees_with_prep".into()),
     };
     let (airs, degs): (Vec<_>, Vec<usize>) = airs_degrees.into_iter().unzip();
+    let alu_air = airs.iter().find_map(|a| match a {
+        p3_circuit_prover::common::CircuitTableAir::Alu(air) => Some(air.clone()),
+        _ => None,
+    });
     let r = catch_unwind(AssertUnwindSafe(|| ProverData::from_airs_and_degrees(&cfg, &airs, &degs)));
     let pd = r.map_err(|_| "PANIC in ProverData::from_airs_and_degrees".to_string())?;
     let base_prep = pc.clone();
-    Ok(Prep { cpd: CircuitProverData::new(pd, pc, npc), base_prep })
+    Ok(Prep { cpd: CircuitProverData::new(pd, pc, npc), base_prep, alu_air })
 }
 
 /// Bus ledger of the primitive tables, read off the preprocessed columns the verifier commits to.
@@ -1211,7 +1216,41 @@ pub fn ledger(c: &Circuit<F>, prep: &Prep) -> Ledger {
     Ledger { slots, floating }
 }
 
-pub fn check_c09(prog: &Program, built: &Built, st: &mut Stats, findings: &mut Vec<Finding>) {
+/// Is this operand cell, which has no bus interaction of its own, tied by the row constraints
+/// to the value its slot has on the bus?  The only way it can be: it aliases `out` and the AIR
+/// asserts equality of the two cells.  Test on the real AIR: change the cell, recompute `out`
+/// so that the kind's arithmetic relation still holds (the two cells now differ), and evaluate
+/// the constraints of the honest table with that one row replaced.  Accepted = the cell floats.
+fn cell_floats(prep: &Prep, traces: &Traces<F>, row: usize, operand: &str) -> Option<bool> {
+    let air = prep.alu_air.as_ref()?;
+    let r = catch_unwind(AssertUnwindSafe(|| {
+        let mut t = traces.alu_trace.clone();
+        let delta = F::from_u64(0x5eed);
+        let kind = t.op_kind[row];
+        let v = &mut t.values[row];
+        match operand {
+            "a" => v[0] += delta,
+            _ => v[2] += delta,
+        }
+        // keep the arithmetic relation of the row true by recomputing out
+        match kind {
+            AluOpKind::Add => v[3] = v[0] + v[1],
+            AluOpKind::Mul => v[3] = v[0] * v[1],
+            AluOpKind::MulAdd => v[3] = v[0] * v[1] + v[2],
+            AluOpKind::BoolCheck => {
+                // a boolean a-cell next to the unchanged out
+                v[0] = if v[3] == F::ZERO { F::ONE } else { F::ZERO };
+                v[2] = v[0];
+            }
+            AluOpKind::HornerAcc => {}
+        }
+        let m = air.trace_to_matrix::<F>(&t, 1);
+        p3_test_utils::air_satisfaction::check_air_satisfies::<F, F, _>(air, &m, &[]).is_ok()
+    }));
+    r.ok()
+}
+
+pub fn check_c09(prog: &Program, built: &Built, rng: &mut StdRng, st: &mut Stats, findings: &mut Vec<Finding>) {
     let _ = st;
     let c = &built.circuit;
     let packing = TablePacking::new(1, 1);
@@ -1238,7 +1277,15 @@ pub fn check_c09(prog: &Program, built: &Built, st: &mut Stats, findings: &mut V
             return;
         }
     }
-    if let Some((row, operand, kind)) = l.floating.first() {
+    // operands without bus interaction: confirmed on the real AIR with the honest row
+    let honest = if l.floating.is_empty() { None } else {
+        find_satisfying(prog, rng, false).and_then(|x| run(c, &fv(&x[..prog.npub]), &fv(&x[prog.npub..])).traces)
+    };
+    let confirmed: Vec<&(usize, &'static str, String)> = l.floating.iter().filter(|(row, operand, _)| match &honest {
+        Some(t) => cell_floats(&prep, t, *row, operand) != Some(false),
+        None => false, // no honest execution to test with: not reported
+    }).collect();
+    if let Some((row, operand, kind)) = confirmed.first() {
         let k = format!("operand-not-on-bus:{kind}.{operand}");
         findings.push(Finding { property: "C09".into(), kind: k.clone(), signature: sig(&k, prog, Some(built)),
             detail: json!({"program": prog_json(prog), "alu_row": row, "operand": operand, "op_kind": kind, "circuit": circuit_json(c)}) });
@@ -1327,4 +1374,181 @@ pub fn check_c10(prog: &Program, built: &Built, rng: &mut StdRng, packings: &[(u
 
 pub fn seeded(seed: u64, salt: u64) -> StdRng {
     StdRng::seed_from_u64(seed.wrapping_mul(0x9E3779B97F4A7C15).wrapping_add(salt))
+}
+
+// ---------------------------------------------------------------------------------------------
+// C04: fault enumeration against the real prover / verifier
+// ---------------------------------------------------------------------------------------------
+#[derive(Default)]
+pub struct ForgeStats {
+    pub programs: u64,
+    pub forgeries: u64,
+    pub rejected: u64,
+    pub harmless_skipped: u64,
+    pub accepted_harmful: u64,
+    pub classes: std::collections::BTreeMap<String, u64>,
+}
+
+fn row_relation_holds(kind: AluOpKind, v: &[F; 4], acc: Option<F>) -> bool {
+    match kind {
+        AluOpKind::Add => v[0] + v[1] == v[3],
+        AluOpKind::Mul => v[0] * v[1] == v[3],
+        AluOpKind::BoolCheck => v[0] * (v[0] - F::ONE) == F::ZERO && v[3] == v[0],
+        AluOpKind::MulAdd => v[0] * v[1] + v[2] == v[3],
+        AluOpKind::HornerAcc => acc.is_none_or(|ac| ac * v[1] + v[2] - v[0] == v[3]),
+    }
+}
+
+/// Every single-cell deviation of the primitive tables of an honest trace, every desynchronised
+/// pair of cells that alias one slot, and every altered constant, proven with the prover data of
+/// the unmodified circuit and verified by the real verifier.  A deviation that breaks a row
+/// relation or changes a value that takes part in the bus must be rejected.
+pub fn check_c04(prog: &Program, built: &Built, rng: &mut StdRng, fs: &mut ForgeStats, max_forgeries: usize, findings: &mut Vec<Finding>) {
+    use crate::forge::{Verdict, prove_verify_with, run_traces};
+    let c = &built.circuit;
+    let Some(x) = find_satisfying(prog, rng, false) else { return };
+    let pubs = fv(&x[..prog.npub]);
+    let privs = fv(&x[prog.npub..]);
+    let Ok(honest) = run_traces(c, &pubs, &privs) else { return };
+    let packing = TablePacking::new(1, 1);
+    let Ok(prep) = prepare(c, &packing) else { return };
+    if prove_verify_with(&prep, &honest, packing.clone()) != Verdict::Accepted {
+        return; // the honest proof does not verify: C10's finding, nothing to forge against
+    }
+    fs.programs += 1;
+    let l = ledger(c, &prep);
+    let input = json!({"pub": pubs.iter().map(|v| fu(*v)).collect::<Vec<_>>(), "priv": privs.iter().map(|v| fu(*v)).collect::<Vec<_>>()});
+    let mut budget = max_forgeries;
+    let try_forged = |fs: &mut ForgeStats, findings: &mut Vec<Finding>, t: &Traces<F>, class: String, what: Value, extra_shape: Option<&str>, budget: &mut usize| {
+        if *budget == 0 {
+            return;
+        }
+        *budget -= 1;
+        fs.forgeries += 1;
+        *fs.classes.entry(class.clone()).or_default() += 1;
+        match prove_verify_with(&prep, t, packing.clone()) {
+            Verdict::Accepted => {
+                fs.accepted_harmful += 1;
+                let mut signature = sig(&class, prog, Some(built));
+                if let Some(s) = extra_shape {
+                    signature.push('+');
+                    signature.push_str(s);
+                }
+                findings.push(Finding { property: "C04".into(), kind: class, signature,
+                    detail: json!({"program": prog_json(prog), "input": input, "deviation": what, "circuit": circuit_json(c),
+                        "note": "the real verifier accepted a proof of this deviating trace"}) });
+            }
+            _ => fs.rejected += 1,
+        }
+    };
+    // bus multiplicity of every ALU cell, from the committed preprocessed columns
+    let to_i = |f: F| -> i64 {
+        let v = f.as_canonical_u64();
+        if v > F::ORDER_U64 / 2 { v as i64 - F::ORDER_U64 as i64 } else { v as i64 }
+    };
+    let alu_ops: Vec<&Op<F>> = c.ops.iter().filter(|op| matches!(op, Op::Alu { .. })).collect();
+    let delta = F::from_u64(0x5eed);
+    for (row, ch) in prep.base_prep[2].chunks(13).enumerate() {
+        if row >= alu_ops.len() {
+            break;
+        }
+        let Op::Alu { kind, a, c: cc, out, intermediate_out, .. } = alu_ops[row] else { unreachable!() };
+        let mult = [to_i(ch[0]) * to_i(ch[11]), to_i(ch[9]), to_i(ch[0]) * to_i(ch[12]), to_i(ch[10])];
+        let acc = if *kind == AluOpKind::HornerAcc { honest.witness_trace.get_value(intermediate_out.unwrap()).copied() } else { None };
+        for (k, name) in ["a", "b", "c", "out"].iter().enumerate() {
+            let mut t = honest.clone();
+            t.alu_trace.values[row][k] += delta;
+            // packed Horner rows do not materialise every record cell: a change that does not
+            // reach the committed matrix is not a deviation of the trace
+            if let Some(air) = prep.alu_air.as_ref() {
+                let same = catch_unwind(AssertUnwindSafe(|| air.trace_to_matrix::<F>(&t.alu_trace, 1) == air.trace_to_matrix::<F>(&honest.alu_trace, 1))).unwrap_or(false);
+                if same {
+                    fs.harmless_skipped += 1;
+                    continue;
+                }
+            }
+            let rel = row_relation_holds(*kind, &t.alu_trace.values[row], acc);
+            if rel && mult[k] == 0 {
+                fs.harmless_skipped += 1;
+                continue;
+            }
+            try_forged(fs, findings, &t, format!("single-cell-deviation-accepted:{kind:?}.{name}"),
+                json!({"table": "Alu", "row": row, "cell": name, "relation_still_holds": rel, "bus_multiplicity": mult[k]}), None, &mut budget);
+        }
+        // two cells that alias one slot, desynchronised while the arithmetic relation holds
+        for (k, name, slot) in [(0usize, "a", Some(*a)), (2usize, "c", *cc)] {
+            if slot != Some(*out) || (k == 2 && !matches!(kind, AluOpKind::MulAdd)) {
+                continue;
+            }
+            let mut t = honest.clone();
+            let v = &mut t.alu_trace.values[row];
+            v[k] += delta;
+            match kind {
+                AluOpKind::Add => v[3] = v[0] + v[1],
+                AluOpKind::Mul => v[3] = v[0] * v[1],
+                AluOpKind::MulAdd => v[3] = v[0] * v[1] + v[2],
+                AluOpKind::BoolCheck => {
+                    v[0] = if v[3] == F::ZERO { F::ONE } else { F::ZERO };
+                    v[2] = v[0];
+                }
+                AluOpKind::HornerAcc => continue,
+            }
+            // out is changed too: if it is a creator its readers now disagree (fine: must be rejected);
+            // restore out when the row allows it (BoolCheck keeps out)
+            try_forged(fs, findings, &t, format!("aliased-cells-desynchronised-accepted:{kind:?}.{name}"),
+                json!({"table": "Alu", "row": row, "cell": name, "aliases": "out"}), None, &mut budget);
+        }
+    }
+    // Const / Public value cells, not propagated
+    for (ti, name) in [(0usize, "Const"), (1usize, "Public")] {
+        for (row, chx) in prep.base_prep[ti].chunks(2).enumerate() {
+            let reads = to_i(chx[0]);
+            if reads == 0 {
+                fs.harmless_skipped += 1;
+                continue;
+            }
+            let mut t = honest.clone();
+            if ti == 0 {
+                if row >= t.const_trace.values.len() { continue; }
+                t.const_trace.values[row] += delta;
+            } else {
+                if row >= t.public_trace.values.len() { continue; }
+                t.public_trace.values[row] += delta;
+            }
+            try_forged(fs, findings, &t, format!("single-cell-deviation-accepted:{name}.value"),
+                json!({"table": name, "row": row, "reads": reads}), None, &mut budget);
+        }
+    }
+    let _ = l;
+    // an altered constant, propagated consistently by the real runner
+    for (i, op) in c.ops.iter().enumerate() {
+        if let Op::Const { out, val } = op {
+            let reads = l.slots.get(out.0 as usize).map(|s| s.reads).unwrap_or(0);
+            if reads == 0 {
+                continue;
+            }
+            let mut forged = c.clone();
+            if let Op::Const { val: v2, .. } = &mut forged.ops[i] {
+                *v2 = *val + delta;
+            }
+            // inputs that satisfy the ALTERED circuit (it asserts different relations)
+            let mut found = None;
+            for _ in 0..4 {
+                let pubs2: Vec<F> = (0..prog.npub).map(|_| rand_f(rng).0).collect();
+                let dead = dead_slots(&forged);
+                if let Some((_, p2)) = ops_satisfying_assignment(&forged, prog.npub, &c.private_input_rows.iter().zip(&privs).map(|(w, v)| (w.0 as usize, *v)).collect::<Vec<_>>(), &[], &dead, false, rng) {
+                    found = Some(p2);
+                    break;
+                }
+                let _ = pubs2;
+            }
+            let Some(p2) = found else { continue };
+            if let Ok(t) = run_traces(&forged, &p2, &privs) {
+                try_forged(fs, findings, &t, "altered-constant-accepted".to_string(),
+                    json!({"const_op": i, "slot": out.0, "original": fu(*val), "altered": fu(*val + delta), "public_inputs": p2.iter().map(|v| fu(*v)).collect::<Vec<_>>()}),
+                    Some("const-values-are-main-trace-cells"), &mut budget);
+                break; // one altered constant per program is enough
+            }
+        }
+    }
 }
